@@ -477,3 +477,127 @@ Proof.
   destruct (get_obj h1 o) as [x|]; [|discriminate]. intro H.
   eapply umono_trans; [eapply prevent_umono; eauto | eapply freeze_keys_umono; eauto].
 Qed.
+
+(* ------------------------------------------------------------------------------------------- simulation: set sites *)
+Definition set_regular (sl : slot) : Prop :=
+  sf_is_accessor_descriptor (s_attrs sl) = true -> sf_has_set (s_attrs sl) = true.
+
+Lemma set_acc_hit st i a d v h sl tr h' ok slu :
+  a_is_accessor a = true -> get_storage st (i, a) = Some d -> a_s a = true ->
+  set_acc_result h v d sl = Some (tr, h', ok, slu) ->
+  exists r, nthN st (i + 1) = Some r /\ h' = h /\
+    ((exists f, r = VFun f /\ tr = call_setter f v /\ ok = true) \/ (is_object r = false /\ tr = [] /\ ok = false)).
+Proof.
+  intros Ha Hd Hs H. destruct (get_storage_acc_kind _ _ _ _ Ha Hd) as [g [s [Hk [Hseq Hex]]]].
+  destruct (Hex Hs) as [r Hr]. rewrite Hs, Hr in Hseq. subst s.
+  unfold set_acc_result, d_set in H. rewrite Hk in H. exists r. split; auto.
+  destruct r as [|n|f]; inversion H; subst; split; auto; [right | right | left]; eauto.
+Qed.
+
+Lemma set_hit_sim : forall h k o x sl v tr h' ok slu,
+  get_obj h o = Some x -> slot_describes SSet h k (o_shape x) sl -> set_regular sl ->
+  ordinary_set (chain_fuel h) h o k v o slot_new = Some (tr, h', ok, slu) ->
+  (sf_is_accessor_descriptor (s_attrs sl) = true /\ sf_has_set (s_attrs sl) = true /\
+   exists stg r, hit_store h x sl = Some stg /\ nthN stg (s_index sl + 1) = Some r /\ h' = h /\
+     ((exists f, r = VFun f /\ tr = call_setter f v /\ ok = true) \/ (is_object r = false /\ tr = [] /\ ok = false)))
+  \/
+  (sf_is_accessor_descriptor (s_attrs sl) = false /\ has_flag (s_attrs sl) sf_PROTOTYPE = false /\
+   exists stg, set_nth (o_store x) (s_index sl) v = Some stg /\ tr = [] /\ ok = true /\
+     h' = set_obj h o {| o_shape := o_shape x; o_store := stg; o_ext := o_ext x |}).
+Proof.
+  intros h k o x sl v tr h' ok slu Hx Hok Hreg H.
+  destruct (chain_fuel_SS h) as [f Hf]. rewrite Hf in H.
+  destruct Hok as [(i & a & L0 & -> & Hw) | (p & px & i & a & L0 & P0 & Hpx & L1 & -> & Hacc)].
+  - destruct (own_pat_facts a) as (Fp & Fg & Fs & Fa & _).
+    destruct (a_is_accessor a) eqn:Ea.
+    + left. rewrite (os_own_acc _ _ _ _ _ _ _ _ Hx L0 Ea) in H.
+      destruct (get_storage (o_store x) (i, a)) as [d|] eqn:Hd; [|discriminate].
+      unfold set_regular in Hreg. simpl in Hreg. rewrite Fa, Fs in Hreg. pose proof (Hreg eq_refl) as Hs.
+      destruct (set_acc_hit _ _ _ _ _ _ _ _ _ _ _ Ea Hd Hs H) as [r [Hn [Hh Hcase]]].
+      simpl. rewrite Fa, Fs. repeat split; auto. exists (o_store x), r. repeat split; auto. apply hit_store_own.
+    + right. rewrite (os_own_data _ _ _ _ _ _ _ _ Hx L0 Ea (Hw eq_refl eq_refl)) in H.
+      destruct (nthN (o_store x) i); [|discriminate].
+      destruct (set_nth (o_store x) i v) as [stg|] eqn:Es; [|discriminate].
+      inversion H; subst. simpl. rewrite Fa, Fp. repeat split; auto. exists stg. repeat split; auto.
+  - specialize (Hacc eq_refl).
+    destruct (proto_pat_facts a) as (Fp & Fg & Fs & Fa & _).
+    left. rewrite (os_proto_acc _ _ _ _ _ _ _ _ _ _ Hx L0 P0 Hpx L1 Hacc) in H.
+    destruct (get_storage (o_store px) (i, a)) as [d|] eqn:Hd; [|discriminate].
+    unfold set_regular in Hreg. simpl in Hreg. rewrite Fa, Fs, Hacc in Hreg. pose proof (Hreg eq_refl) as Hs.
+    destruct (set_acc_hit _ _ _ _ _ _ _ _ _ _ _ Hacc Hd Hs H) as [r [Hn [Hh Hcase]]].
+    simpl. rewrite Fa, Fs, Hacc. repeat split; auto. exists (o_store px), r. repeat split; auto.
+    eapply hit_store_proto; eauto.
+Qed.
+
+Local Opaque ordinary_set chain_fuel hit_store.
+
+Lemma sim_set : forall stc stu n k o v outs_u stu',
+  IC_valid stc -> st_heap stc = st_heap stu ->
+  (forall x sl, get_obj (st_heap stc) o = Some x ->
+     fst (fst (ic_get (site_get (st_sites stc) (SSet, n, k)) (st_heap stc) k (o_shape x))) = Some sl -> set_regular sl) ->
+  cached_set false stu (SSet, n, k) o v = Some (outs_u, stu') ->
+  exists outs_c stc', cached_set true stc (SSet, n, k) o v = Some (outs_c, stc') /\
+    filter visible outs_c = filter visible outs_u /\ st_heap stc' = st_heap stu' /\ IC_valid stc' /\
+    umono (st_heap stc) (st_heap stc').
+Proof.
+  intros stc stu n k o v outs_u stu' Hv Hh Hreg H.
+  unfold cached_set in H. rewrite <- Hh in H.
+  remember (st_heap stc) as h eqn:Eh.
+  destruct (get_obj h o) as [x|] eqn:Hx.
+  2:{ inversion H; subst. exists [ONoObj], stc. split; [|repeat split; auto using umono_refl].
+      unfold cached_set. rewrite Hx. reflexivity. }
+  destruct (ordinary_set (chain_fuel h) h o k v o slot_new) as [[[[tr h'] ok] slu]|] eqn:G; [|discriminate].
+  cbn in H. destruct (get_obj h' o) as [x'|] eqn:Hx'; [|discriminate]. inversion H; subst outs_u stu'; clear H.
+  pose proof (os_umono _ _ _ _ _ _ _ _ _ _ _ G) as Hmono.
+  destruct (ic_get (site_get (st_sites stc) (SSet, n, k)) h k (o_shape x)) as [[hit c1] ev] eqn:I.
+  destruct (ic_get_spec _ _ _ _ _ _ _ I) as [Hsub Hhit].
+  assert (Hv0 : IC_valid {| st_heap := h; st_sites := st_sites stc |}) by (rewrite Eh; destruct stc; exact Hv).
+  assert (Hc1 : forall e, In e (c_entries c1) -> entry_ok SSet h k e).
+  { intros e He. rewrite Eh. apply (cache_entries_ok stc SSet n k Hv e). auto. }
+  destruct hit as [sl|].
+  - destruct (Hhit sl eq_refl) as [-> (e & Hin & Hs & Hsl & Hcur)].
+    pose proof (Hc1 e Hin) as Hok.
+    rewrite <- Hs in Hcur. pose proof (current_entry_describes SSet h k e Hok Hcur) as Hd. rewrite Hs, Hsl in Hd.
+    assert (Hr : set_regular sl) by (apply (Hreg x sl eq_refl); rewrite I; reflexivity).
+    destruct (set_hit_sim h k o x sl v tr h' ok slu Hx Hd Hr G)
+      as [(Ha & Hset & stg & r & Hst & Hn & Hh' & Hcase) | (Ha & Hp & stg & Hst & Ht & Ho & Hh')].
+    + subst h'. destruct Hcase as [(f & -> & -> & ->) | (Hno & -> & ->)].
+      * assert (E : cached_set true stc (SSet, n, k) o v = Some (call_setter f v ++ [OBool true; OIC ev], stc)).
+        { unfold cached_set. rewrite <- Eh, Hx, I. cbn -[hit_store]. rewrite Ha, Hst, Hn, Hset. reflexivity. }
+        eexists; eexists; split; [exact E|]. rewrite !filter_visible_app. simpl. rewrite <- Eh.
+        repeat split; auto using umono_refl.
+      * assert (E : cached_set true stc (SSet, n, k) o v = Some ([OTypeErr; OIC ev], stc)).
+        { unfold cached_set. rewrite <- Eh, Hx, I. cbn -[hit_store]. rewrite Ha, Hst, Hn, Hset, Hno. reflexivity. }
+        eexists; eexists; split; [exact E|]. simpl. rewrite <- Eh. repeat split; auto using umono_refl.
+    + subst tr ok h'.
+      assert (E : cached_set true stc (SSet, n, k) o v =
+                  Some ([OBool true; OIC ev],
+                        {| st_heap := set_obj h o {| o_shape := o_shape x; o_store := stg; o_ext := o_ext x |};
+                           st_sites := st_sites stc |})).
+      { unfold cached_set. rewrite <- Eh, Hx, I. cbn -[hit_store]. rewrite Ha, Hp, Hst. reflexivity. }
+      eexists; eexists; split; [exact E|]. simpl. repeat split; auto.
+      apply (IC_valid_heap_step {| st_heap := h; st_sites := st_sites stc |} _ Hv0 Hmono).
+  - destruct (ok && sf_is_cacheable (s_attrs slu)) eqn:Ec.
+    + destruct (ic_set c1 h' (o_shape x') slu) as [c' ev'] eqn:Es.
+      assert (E : cached_set true stc (SSet, n, k) o v =
+                  Some (tr ++ [if ok then OBool true else OTypeErr; OIC (ev ++ ev')],
+                        {| st_heap := h'; st_sites := site_put (st_sites stc) (SSet, n, k) c' |})).
+      { unfold cached_set. rewrite <- Eh, Hx, I. cbn -[hit_store]. rewrite G. cbn -[hit_store]. rewrite Hx'.
+        cbn -[hit_store]. rewrite Ec, Es. reflexivity. }
+      eexists; eexists; split; [exact E|]. rewrite !filter_visible_app. simpl. repeat split; auto.
+      apply andb_true_iff in Ec as [-> Ec].
+      pose proof (IC_valid_heap_step {| st_heap := h; st_sites := st_sites stc |} h' Hv0 Hmono) as Hv1. simpl in Hv1.
+      apply (IC_valid_put {| st_heap := h'; st_sites := st_sites stc |} SSet n k c' Hv1). simpl. intros e He.
+      destruct (ic_set_entries _ _ _ _ _ _ Es e He) as [Hold | ->].
+      * eapply entry_ok_mono; eauto.
+      * apply fresh_entry_ok. exact (os_cacheable h o k v x tr h' slu x' Hx G Ec Hx').
+    + assert (E : cached_set true stc (SSet, n, k) o v =
+                  Some (tr ++ [if ok then OBool true else OTypeErr; OIC (ev ++ [])],
+                        {| st_heap := h'; st_sites := site_put (st_sites stc) (SSet, n, k) c1 |})).
+      { unfold cached_set. rewrite <- Eh, Hx, I. cbn -[hit_store]. rewrite G. cbn -[hit_store]. rewrite Hx'.
+        cbn -[hit_store]. rewrite Ec. reflexivity. }
+      eexists; eexists; split; [exact E|]. rewrite !filter_visible_app. simpl. repeat split; auto.
+      pose proof (IC_valid_heap_step {| st_heap := h; st_sites := st_sites stc |} h' Hv0 Hmono) as Hv1. simpl in Hv1.
+      apply (IC_valid_put {| st_heap := h'; st_sites := st_sites stc |} SSet n k c1 Hv1). simpl. intros e He.
+      eapply entry_ok_mono; eauto.
+Qed.
